@@ -5,7 +5,7 @@
      fs    = ((path node) ...)
      cfg   = (out proj lib_ok force viz)
      ana   = (ok cmds types commands (events)? index txt dot cache)     events: () or ("...")
-     entry = ("generate") | ("init" target force parses newtext) | ("build" detected)
+     entry = ("generate") | ("init" target force parses newtext) | ("build" detected) | ("api")
      run   = (entry cfg ana) *)
 open Sexp
 open Glue
@@ -39,6 +39,7 @@ let entry_ s = match list s with
   | [Atom "init"; t; force; parses; nw] ->
       M.Init { M.i_target = path_ t; i_force = bool_ force; i_parses = bool_ parses; i_new = str_ nw }
   | [Atom "build"; d] -> M.Build (bool_ d)
+  | [Atom "api"] -> M.Api
   | _ -> failwith "entry expected"
 
 let run_ s = match list s with
